@@ -512,6 +512,52 @@ func c01Scout(c *Ctx, k, of int) {
 				}
 			}
 		}
+		// the raw word is 4 bytes however the source chunks them: delivered in pieces of 1-3 bytes the draw
+		// must consume the same bytes and give the same result
+		for _, w64 := range []uint64{0, uint64(n) - 1, T - 1, T, 1<<32 - 1, uint64(c.R.U32()), uint64(c.R.U32()) | 0x01010101} {
+			if w64 > 0xFFFFFFFF {
+				continue
+			}
+			w := uint32(w64)
+			r0, reads0, p0 := tape.Observe(n, w, 0x01020304, 0x01020304)
+			if p0 {
+				continue
+			}
+			for chunk := 1; chunk <= 3; chunk++ {
+				r1, bytes1, p1 := tape.ObserveChunked(n, chunk, w, 0x01020304, 0x01020304)
+				c.Exec(1)
+				c.Count("chunked_draws_checked", 1)
+				if p1 || r1 != r0 || bytes1 != 4*reads0 {
+					c.Violate("depends-on-chunking", fmt.Sprintf("n=%d word %#08x: delivered whole the draw gives %d after %d bytes; delivered %d byte(s) per read it gives %d after %d bytes (panic=%v)", n, w, r0, 4*reads0, chunk, r1, bytes1, p1),
+						map[string]interface{}{"n": n, "word": w, "chunk": chunk})
+					return
+				}
+			}
+		}
+		// another draw (different bound) completing while this one waits in the source must not matter
+		if n >= 3 && n&(n-1) != 0 {
+			for _, innerN := range []uint32{62, 1000, 3, 0xF0000001, n + 1} {
+				if innerN == n || innerN&(innerN-1) == 0 {
+					continue
+				}
+				innerT := (uint64(1) << 32 / uint64(innerN)) * uint64(innerN)
+				for _, w64 := range []uint64{T, T + 1, 1<<32 - 1, innerT, innerT - 1, innerT + 1, T - 1, uint64(c.R.U32())} {
+					if w64 > 0xFFFFFFFF {
+						continue
+					}
+					w := uint32(w64)
+					r0, reads0, p0 := tape.Observe(n, w, 5, 5, 5)
+					r1, reads1, p1 := tape.ObserveInterposed(n, innerN, uint32(c.R.U32()), w, 5, 5, 5)
+					c.Exec(2)
+					c.Count("interposed_draws_checked", 1)
+					if p0 != p1 || r0 != r1 || reads0 != reads1 {
+						c.Violate("draw-disturbed-by-another-draw", fmt.Sprintf("n=%d word %#08x: alone the draw gives %d after %d reads; with a complete draw of bound %d made while it waits for the source it gives %d after %d reads", n, w, r0, reads0, innerN, r1, reads1),
+							map[string]interface{}{"n": n, "word": w, "inner_bound": innerN})
+						return
+					}
+				}
+			}
+		}
 		if suspicious != "" {
 			c.Count("suspicions", 1)
 			if !escalated && n <= c01SmallMax {
